@@ -50,14 +50,15 @@ REQUIRED_LABELS = {
         "q:quantized_relu_po2", "q:binary", "q:ternary", "q:stochastic_ternary",
         "q:stochastic_binary", "q:quantized_tanh", "q:quantized_sigmoid",
         "q:quantized_ulaw", "q:quantized_linear", "q:bernoulli", "string_form",
-        "merge", "masked_conv", "canonical", "hyp", "frozen_layer",
+        "merge", "masked_conv", "mask_fractional", "mask_gt_127", "mask_int32",
+        "mask_bool", "canonical", "frozen_layer",
         "bn_no_affine", "gru_reset_after", "stock_act:hard_sigmoid",
         "stock_act:sigmoid", "stock_act:tanh", "stock_act:softmax",
         "L:Dense", "L:Conv2D", "L:LSTM", "L:BatchNormalization"],
     "thorough": ["L:" + c for c in _LAYERS] + [
         "route_ok:json", "route_ok:clone", "route_ok:h5", "pred_compared",
         "q:quantized_hswish", "lossy", "api:predict", "masked_conv", "merge",
-        "canonical", "hyp"],
+        "canonical", "hyp", "mask_fractional", "mask_gt_127"],
 }
 ROUTES = ("json", "clone", "h5")
 EXCLUDED_UNBUILDABLE = ["QConv2DTranspose"]
@@ -195,6 +196,8 @@ def _kind(name):
 
 
 _BENIGN = {"recurrent_activation": {"s": "quantized_sigmoid(4)"}}
+_ESSENTIAL_KW = ("units", "filters", "kernel_size", "activation", "total_bits",
+                 "return_sequences", "merge_mode")
 
 
 def find_culprit(desc, model, route, sub_check, exc_name=None, only_layer=None):
@@ -243,6 +246,19 @@ def find_culprit(desc, model, route, sub_check, exc_name=None, only_layer=None):
           return {"layer": ld["cls"], "slot": slot, "culprit_q": c,
                   "culprit_kind": _kind(c),
                   "form": "string" if "s" in spec else "object"}
+    # no quantizer slot explains it: ablate the plain constructor options
+    for h in holders:
+      for key in sorted(h.get("kw", {})):
+        if key in _ESSENTIAL_KW or (key == "mask_dtype"):
+          continue
+        saved = h["kw"].pop(key)
+        saved_dt = h["kw"].pop("mask_dtype", None) if key == "mask" else None
+        r = _still_fails(d1, route, sub_check, exc_name)
+        h["kw"][key] = saved
+        if saved_dt is not None:
+          h["kw"]["mask_dtype"] = saved_dt
+        if r is False:
+          return dict(none, layer=ld["cls"], culprit_option=key)
     return dict(none, layer=ld["cls"])
   return none
 
@@ -378,6 +394,13 @@ def oracle_case(ctx, case, extra_labels=()):
       labs.append("merge")
     if ld.get("kw", {}).get("mask") is not None:
       labs.append("masked_conv")
+      mv = [v for row in ld["kw"]["mask"] for v in row]
+      if any(float(v) != int(v) for v in mv):
+        labs.append("mask_fractional")
+      if any(v > 127 for v in mv):
+        labs.append("mask_gt_127")
+      if ld["kw"].get("mask_dtype") in ("int32", "bool"):
+        labs.append("mask_" + ld["kw"]["mask_dtype"])
     if ld.get("kw", {}).get("trainable") is False:
       labs.append("frozen_layer")
     if not ld["cls"].startswith("Q"):
